@@ -42,6 +42,8 @@ def execute(p):
         return a[i]
     if t == "attr":
         return execute(p["a"]).attr(p["name"])
+    if t == "attra":
+        return getattr(execute(p["a"]).a, p["name"])
     raise ValueError(t)
 
 
@@ -121,7 +123,9 @@ def run(tier, seed, out):
 
     def corrupt(r):      # the built object replaced by "object + 1"
         if r["res"].get("r") == "ok" and r["p"]["t"] == "bin" and r["p"]["op"] in ("+", "*") \
-                and r["res"]["e"]["t"] in ("Sum", "Product"):
+                and r["res"]["e"]["t"] in ("Sum", "Product") \
+                and r["p"]["l"]["t"] == "leaf" and r["p"]["r"]["t"] == "leaf" \
+                and r["p"]["l"]["e"]["t"] == "Var" and r["p"]["l"]["e"]["name"] in ("x", "y", "z"):
             r["res"]["e"] = {"t": "Sum", "c": [r["res"]["e"], {"t": "Const", "v": {"k": "int", "n": 1, "d": 1}}]}
             return r
         return None
